@@ -1,4 +1,4 @@
-(* C10 - where the implementation leaves the list model: three concrete witnesses (each is replayed on the
+(* C10 - where the implementation leaves the list model: concrete witnesses (each is replayed on the
    real implementation on every run, see findings/C10.json) and the guard's verdict on them *)
 From Coq Require Import List ZArith Bool Arith.
 Import ListNotations.
@@ -53,13 +53,13 @@ Lemma closure_depends_on_strategy :
   run_spec 1 [[VI 1]] [FetchMany (Some 2); OnlyOne First; FetchOne].
 Proof. vm_compute. split; [reflexivity|intros H; discriminate H]. Qed.
 
-(* D3: s = result.scalars(); next(s); s.unique(); the memoised _onerow_getter keeps delivering duplicates
-   (ScalarResult.unique / MappingResult.unique are not @_generative, so nothing is reset), while
-   fetchmany() - whose getter was not memoised yet - does de-duplicate *)
-Lemma filter_unique_after_fetch_ignored :
+(* formerly D3 (repaired, commit 386c857: ScalarResult.unique / MappingResult.unique are @_generative):
+   s = result.scalars(); next(s); s.unique(); the getters memoised by the first next() are dropped, so
+   next(s) and fetchmany() both de-duplicate from now on - the implementation and the list model agree *)
+Lemma filter_unique_after_fetch_honoured :
   run_impl StDirect 1 [[VI 2]; [VI 2]; [VI 2]; [VI 2]] [Scalars 0; Next; Unique KRow; Next; Next; FetchMany (Some 2)] =
     [(OUnit, false); (OItem (IScalar (VI 2)), false); (OUnit, false);
-     (OItem (IScalar (VI 2)), false); (OItem (IScalar (VI 2)), false); (OItems [IScalar (VI 2)], false)] /\
+     (OItem (IScalar (VI 2)), false); (OStop, false); (OItems [], false)] /\
   run_spec 1 [[VI 2]; [VI 2]; [VI 2]; [VI 2]] [Scalars 0; Next; Unique KRow; Next; Next; FetchMany (Some 2)] =
     [(OUnit, false); (OItem (IScalar (VI 2)), false); (OUnit, false);
      (OItem (IScalar (VI 2)), false); (OStop, false); (OItems [], false)].
@@ -70,17 +70,18 @@ Lemma guard_rejects_witnesses :
   guard StDirect 2 rows3 [Unique KRow; FetchOne; OnlyOne First] = false /\
   guard StDirect 2 rows3 [Unique KRow; FetchOne; OnlyOne OneOrNone] = false /\
   guard StDirect 1 [[VI 1]] [All; OnlyOne First; FetchOne] = false /\
-  guard (StBuffered 2) 1 [[VI 1]] [FetchMany (Some 2); OnlyOne First; FetchOne] = false /\
-  guard StDirect 1 [[VI 2]; [VI 2]; [VI 2]; [VI 2]] [Scalars 0; Next; Unique KRow; Next; Next; FetchMany (Some 2)] = false.
+  guard (StBuffered 2) 1 [[VI 1]] [FetchMany (Some 2); OnlyOne First; FetchOne] = false.
 Proof. vm_compute. repeat split; reflexivity. Qed.
 (* ... and accepts their neighbours: first() on a fresh uniqued result, first() on an exhausted
    IteratorResult or on a CursorResult that has not noticed the exhaustion yet, unique() on a fresh
-   scalars() view, unique() on the result itself after a fetch, and a long mixed sequence *)
+   scalars() view, unique() on the result itself or on a scalars() view after a fetch, and a long mixed
+   sequence *)
 Lemma guard_accepts_neighbours :
   guard StDirect 2 rows3 [Unique KRow; OnlyOne One] = true /\
   guard StIter 1 [[VI 1]] [All; OnlyOne First; FetchOne] = true /\
   guard StDirect 1 [[VI 1]] [FetchMany (Some 2); OnlyOne First; FetchOne] = true /\
   guard StDirect 1 [[VI 2]; [VI 2]; [VI 2]] [Scalars 0; Unique KRow; Next; Next] = true /\
+  guard StDirect 1 [[VI 2]; [VI 2]; [VI 2]; [VI 2]] [Scalars 0; Next; Unique KRow; Next; Next; FetchMany (Some 2)] = true /\
   guard StDirect 2 rows3 [FetchOne; Unique KRow; FetchOne; FetchOne] = true /\
   guard (StBuffered 2) 2 (rows3 ++ rows3 ++ [[VI 0; VI 0]])
     [YieldPer 3; Unique KFirst; FetchMany None; Mappings; Columns [1; 0]; Partitions (Some 1) 2; ToRoot;
